@@ -258,6 +258,69 @@ fn check_reset_in(fmt: u8, ff: usize, lead_words: usize, stave: bool) -> Option<
     }
 }
 
+/// "Judged from the initial state", differentially: the messages for the packets that follow a rejected payload equal
+/// the messages a fresh validator gives for the same packets. The packets before the rejected one leave history behind
+/// (a calibration word with another user field), the packets after it would be judged differently with that history
+/// (their calibration word has index 1: `[E81]` only if a previous CDW with another user field is remembered).
+fn check_reset_history(fmt: u8, ff: usize) -> Option<(String, String)> {
+    let cfg: &'static MockConfig = val::mode_cfg(Mode::AllIts);
+    let mut lc = LinkCfg::ib(0, 0);
+    lc.data_format = fmt;
+    let shape = grammar::basic_hbf_shapes(&lc)[4].1.clone(); // "cdw-at-start"
+    let lead = grammar::render_link(&lc, &[shape.clone()]);
+    let mut lc2 = lc.clone();
+    lc2.first_orbit += 7;
+    let mut follow = grammar::render_link(&lc2, &[shape]);
+    let mut patched = false;
+    for p in follow.iter_mut() {
+        for wi in 0..p.words.len() {
+            if p.words[wi].kind == grammar::WKind::Cdw {
+                let off = p.word_rel_offset(wi) - 64;
+                p.packet.payload[off..off + 10].copy_from_slice(&fp_model::words::cdw(0x00AB_CDEF_0123, 1));
+                patched = true;
+            }
+        }
+    }
+    if !patched {
+        return Some(("reset:harness".into(), "no CDW in the follow-up page".into()));
+    }
+    let run = |with_history: bool| -> Result<Vec<String>, String> {
+        let (tx, rx) = flume::unbounded();
+        val::guarded(|| {
+            let (mut lv, _s) = LinkValidator::<RdhCru, MockConfig>::with_chan_capacity(cfg, tx, None);
+            if with_history {
+                lv.verif_step((val::rdh_from(&lead[0].packet.rdh.encode()), lead[0].packet.payload.clone(), 0));
+                let bad = build_payload(fmt, 3, ff);
+                let mut h2 = lead[0].packet.rdh.clone();
+                h2.pages_counter = 1;
+                h2.memory_size = (64 + bad.len()) as u16;
+                h2.offset_next = h2.memory_size;
+                lv.verif_step((val::rdh_from(&h2.encode()), bad, 0x1000));
+                let _ = rx.try_iter().count();
+            }
+            let mut msgs = Vec::new();
+            for (i, p) in follow.iter().enumerate() {
+                lv.verif_step((val::rdh_from(&p.packet.rdh.encode()), p.packet.payload.clone(), 0x2000 + 0x1000 * i as u64));
+                msgs.extend(val::error_texts(&rx.try_iter().collect::<Vec<_>>()));
+            }
+            // RDH-level findings depend on the artificial page sequence, not on the payload state
+            msgs.retain(|m| !m.contains("[E10]") && !m.contains("[E11]"));
+            msgs
+        })
+    };
+    match (run(true), run(false)) {
+        (Err(p), _) | (_, Err(p)) => Some((format!("panic:{}", val::panic_site(&p)), p)),
+        (Ok(a), Ok(b)) => {
+            if a != b {
+                let extra: Vec<&String> = a.iter().filter(|m| !b.contains(m)).collect();
+                let lost: Vec<&String> = b.iter().filter(|m| !a.contains(m)).collect();
+                return Some(("reset:next-packet-judged-with-history-from-before-the-reset".into(), format!("after a rejected payload the following packets get {} messages, a fresh validator gives {}: only after the reset {:?}, only fresh {:?}", a.len(), b.len(), extra.first().map(|s| s.lines().next().unwrap_or("")), lost.first().map(|s| s.lines().next().unwrap_or("")))));
+            }
+            None
+        }
+    }
+}
+
 /// The readout-frame views: a two-packet file whose first payload has `n` displayable words and `ff` padding bytes;
 /// every printed row must be the model's decode of a real word at that offset, and no row may come from padding.
 fn check_view(fmt: u8, n: usize, ff: usize, data: bool) -> Option<(String, String)> {
@@ -489,6 +552,13 @@ pub fn run(tier: Tier) -> i32 {
             rep.violation(Violation { signature: if *st { format!("{sig}:stave-mode") } else { sig.clone() }, description: format!("{d} [format {f}, {k} x 0xFF, {l} lead-in words{}]", if *st { ", check all its-stave" } else { "" }), replay: json!({"kind": "reset", "fmt": f, "ff": k, "lead": l, "stave": st}) });
         }
     }
+    for fmt in [0u8, 2] {
+        for ff in [16usize, 17, 25, 40] {
+            if let Some((sig, d)) = check_reset_history(fmt, ff) {
+                rep.violation(Violation { signature: sig, description: format!("{d} [format {fmt}, {ff} x 0xFF; calibration words before and after the rejected payload]"), replay: json!({"kind": "reset-history", "fmt": fmt, "ff": ff}) });
+            }
+        }
+    }
     // the readout-frame views (real CLI): formats x word counts x 0..=15 padding bytes x {frames, frames+data}
     let mut wcases = Vec::new();
     let wcounts: Vec<usize> = if tier.is_thorough() { (2..=40).chain([511, 512, 700]).collect() } else { vec![2, 3, 8, 9, 10, 11, 16] };
@@ -529,6 +599,7 @@ pub fn replay(v: &serde_json::Value) -> i32 {
     let res = match r["kind"].as_str().unwrap() {
         "preprocess" => check_preprocess_x(g("fmt") as u8, g("n"), g("ff"), r["ffw"].as_u64().map(|x| x as usize)),
         "view" => check_view(g("fmt") as u8, g("n"), g("ff"), r["data"].as_bool().unwrap_or(false)),
+        "reset-history" => check_reset_history(g("fmt") as u8, g("ff")),
         "validator" => check_validator_x(g("fmt") as u8, g("n"), g("ff"), if r["mode"] == "check sanity its" { Mode::SanityIts } else { Mode::AllIts }, r["ffw"].as_u64().map(|x| x as usize)),
         _ => check_reset_in(g("fmt") as u8, g("ff"), g("lead"), r["stave"].as_bool().unwrap_or(false)),
     };
